@@ -665,3 +665,28 @@ pub fn c_tee_union<'a>(a: S<'a, u32>) {
         .assume_ordering::<TotalOrder>(nondet!(/** observation only */))
         .embedded_output("out");
 }
+
+// ------------------------------------------------------------------ across_ticks (C30)
+// stateful operators inside `across_ticks` keep their memory from one batch to the next
+
+pub fn x_across_count<'a>(a: S<'a, u32>) {
+    b1(a).1
+        .across_ticks(|s| s.count())
+        .all_ticks()
+        .embedded_output("out");
+}
+
+pub fn x_across_fold<'a>(a: S<'a, u32>) {
+    b1(a).1
+        .filter(q!(|x| *x % 2 == 1))
+        .across_ticks(|s| s.fold(q!(|| 0u32), q!(|acc, x| *acc = (*acc * 2 + x) % 1009)))
+        .all_ticks()
+        .embedded_output("out");
+}
+
+pub fn x_across_unique<'a>(a: S<'a, u32>) {
+    b1(a).1
+        .across_ticks(|s| s.unique())
+        .all_ticks()
+        .embedded_output("out");
+}
